@@ -20,6 +20,45 @@ CHECKS = {
         note=TB_COMMON + "Hypotheses of the theorem: hash_func total and not conflating calls with different results, max_length >= 1, wrapped function returns. Not modelled: mutable_pseudo_hash, cache state after an exception, threads.",
         technique="Coq proof by induction over call histories (refinement to an abstract LRU) on a model translated from source each run; bridge lemma + extracted-model differential test as the tie",
     ),
+    "C12": dict(
+        text=("Coq proof that the engine REGENERATED from typeset.py / relations.py / pandas/traversal.py / functional.py on every run (detect, infer, "
+              "detect_type, infer_type, cast_*, DataFrame traversal) equals the reference walk of spec/WalkSpec.v for every type system, graph, data, "
+              "guard/transformer behaviour (incl. raising and state-writing ones) - fresh state per call and per column, threaded through every guard "
+              "and transformer - and that this functional walk coincides with the fuel-free relational reference semantics. Tie: re-translation + "
+              "bridge lemmas, and differential runs of the generated engine (vm_compute) against real visions on hundreds of random user-defined type "
+              "systems (class-based and create_type, per-class dispatch) over all inputs of their universes."),
+        ref="DESIGN.md section 6 (C12)",
+        note=TB_COMMON + "Hand models validated by the correspondence: networkx DiGraph subset (NxModel.v), attr.evolve defaults of VisionsBaseTypeMeta.relations and multimethod dispatch (RunnerEngine.v). set iteration order is read from the interpreter. Fuel bounds recursion in the model.",
+        technique="Coq proof (bridge: generated engine = reference walk; walk <-> relational semantics) on a model translated from source each run; random-type-system differential test as tie",
+    ),
+    "C01": dict(
+        text=("Coq theorem, parametric in the type system, graph, successor order, data and state: if every identity edge is guarded by the child's "
+              "contains_op (a function of the sequence alone) with the identity transformer, then what the GENERATED detect returns is the input itself with "
+              "a path from the root along graph edges through types that all contain the sequence, ending in a type none of whose successors contains it. "
+              "The hypothesis is what VisionsBaseTypeMeta.relations builds for identity relations; it and the conclusion are additionally exercised on the "
+              "implementation for shipped typesets and random parent-closed sub-typesets on pandas / list / numpy inputs, also after interleaved inference calls."),
+        ref="DESIGN.md section 6 (C01)",
+        note=TB_COMMON + "Assumes contains_op of shipped types ignores the state and identity relations carry no explicit guard/transformer (exercised dynamically; proved for the generated backends in later layers). Objects with adversarial __eq__/__class__ are outside the model.",
+        technique="Coq proof over the reference walk (induction on walks) lifted to the generated detect by the bridge; Python-side soundness oracle on shipped typesets for counter-example search",
+    ),
+    "C08": dict(
+        text=("Coq proof about the GENERATED _traverse_graph_dataframe / VisionsTypeset.* / functional.*: for every frame with unique labels, type system and graph, "
+              "the data, path and state components are label-for-label and in column order the results of an independent fresh traversal of each column; the "
+              "functional wrappers equal the methods. pd.DataFrame(dict) is an uninterpreted re-assembly function; that it keeps equally-indexed columns is checked "
+              "on the implementation by an oracle comparing frame results with per-column results (types, casts incl. dtype and index, sub-frames, comparison and report functions)."),
+        ref="DESIGN.md section 6 (C08)",
+        note=TB_COMMON + "pd.DataFrame(dict of Series), df.columns and df[col] are uninterpreted functions of the model (frame_of_dict, frame_columns, frame_getitem). Column labels are compared with a decidable equality assumed correct.",
+        technique="Coq proof (bridge + list induction) that the generated DataFrame traversal is a map of independent per-column walks; DataFrame-vs-columns oracle on the implementation",
+    ),
+    "C18": dict(
+        text=("Coq proof about the GENERATED traverse_graph_with_sampled_series for EVERY sampler (series.sample is an arbitrary function), sample size, graph and series: "
+              "the returned path starts at the entry type, every relation on it accepted the full data as it was at that point and the returned data is the full data after "
+              "exactly those transformers; hence it belongs to the last type when transformers land in their targets; below 1000 rows or with a sample larger than the data it "
+              "equals full traversal. (The unchanged tree violated this - off-by-one after break, shared default state - repaired by two fix: commits.)"),
+        ref="DESIGN.md section 6 (C18)",
+        note=TB_COMMON + "series.shape[0] and series.sample are uninterpreted; membership of the result in the last type additionally needs C03 (transformers land in target).",
+        technique="Coq proof (bridge to a replay spec + induction over the re-validated path) for an arbitrary sampler; oracle on >= 1000-row contaminated series for counter-example search",
+    ),
 }
 
 
